@@ -49,6 +49,7 @@ def run(P, R, tier):
     exact_test_on_every_path(P, R, CI)
     common.forward(P, R, 'C13', ['C13.a', 'C13.b'], 'C04.e', 'the boxes the spatial index is built from are the elements\' own extents (sliced arrays included)', floor=10)
     sindex_writers(P, R)
+    common.forward(P, R, 'C01', ['C01.c'], 'C04.e', 'cx applies intersects_bounds to the candidates: every element the caller selects gets its own verdict (rows outside `inds` stay False, rows inside are all computed)', floor=3)
     common.forward(P, R, 'C03', ['C03.a', 'C03.b', 'C03.c', 'C03.d', 'C03.e', 'C03.f', 'C03.g', 'C03.h', 'C03.j', 'C03.k'], 'C04.e', 'cx with a spatial index is exact only if the R-tree answers exactly', floor=10)
 
 
@@ -157,6 +158,11 @@ def box_pipeline(P, R, BI, CI, gb, gi, pg):
                     R.bad('C04.a', gb, e.node, f'box construction mixes axes: {e.a.name} with {e.b.name}')
                     return
                 except ordeval.NotComparisonOnly as e:
+                    if 'truth value of a symbolic number' in str(e):
+                        # `xs.start or xmin`: a slice end is tested by its truth value
+                        R.bad('C04.a', gb, None, 'a slice end (or a coordinate) is tested by its truth value (`end or default`, `if end:`): an explicit end of 0 counts as omitted and is '
+                              'replaced by the data extent, so cx[0:5, 0:5] selects rows left of / below 0', construct='slice ends tested with `is None`')
+                        return
                     raise AnalysisError(f'C04.a: box pipeline is not comparison-only: {e}')
                 ex, ey = expected(cx), expected(cy)
                 sinks = ['intersects_bounds'] + (['covers_overlaps'] if with_index else [])
